@@ -149,7 +149,12 @@ func (fr *frame) execInstr(b *ssa.BasicBlock, ins ssa.Instruction, g *Term) *Ter
 		st := x.Type().Underlying().(*types.Slice)
 		fr.panicAt(And(g, Or(Cmp("bvslt", ln, BV(IntW, 0)), Cmp("bvslt", cp, ln))), "makeslice: len out of range", x.Pos())
 		n := fr.boundOf(cp, g, "make([]T, n)", x.Pos())
-		obj := fr.newArray(st.Elem(), n)
+		var obj *Object
+		if n < 0 {
+			obj = newObject(AbstractArr{})
+		} else {
+			obj = fr.newArray(st.Elem(), n)
+		}
 		fr.set(x, g, SliceV{alts: []SliceAlt{{g: True, obj: obj, off: BV(IntW, 0), ln: ln, cap: cp}}})
 	case *ssa.MakeInterface:
 		fr.set(x, g, IfaceV{alts: []IfaceAlt{{g: True, typ: x.X.Type(), val: fr.get(x.X)}}})
@@ -175,7 +180,7 @@ func (fr *frame) execInstr(b *ssa.BasicBlock, ins ssa.Instruction, g *Term) *Ter
 				continue
 			}
 			fr.panicAt(And(g, al.g, Cmp("bvult", al.ln, BV(IntW, uint64(n)))), "slice to array pointer: length", x.Pos())
-			if !al.off.konst || al.off.val != 0 || len(al.obj.val.(ArrayV).e) != int(n) {
+			if !al.off.konst || al.off.val != 0 || arrLen(al.obj) != int(n) {
 				abort("SliceToArrayPointer of a sub-slice unsupported")
 			}
 			r.alts = append(r.alts, PtrAlt{g: al.g, obj: al.obj})
@@ -319,7 +324,7 @@ func (fr *frame) execSlice(x *ssa.Slice, g *Term) *Term {
 			if len(al.path) != 0 {
 				abort("slice of nested array unsupported at %s", fr.e.posStr(pos, fr.fn))
 			}
-			n := BV(IntW, uint64(len(al.obj.val.(ArrayV).e)))
+			n := BV(IntW, uint64(arrLen(al.obj)))
 			h, m := hi, max
 			if h == nil {
 				h = n
